@@ -178,13 +178,25 @@ theorem region_assembly_channel {α} (z : α) (M : Img α) (lut : List LutRow) (
   exact grid_covers R C th tw ht hw _ hg (r0 + i) (c0 + j) (by omega) (by omega) (by omega) (by omega)
 
 /-- Two frames at the same position (and channel) make every region read fail: the library never guesses which of
-two tiles to show (e.g. an image with several optical paths or focal planes read without a channel query). -/
+two tiles to show.  (The hypothesis is the model's hand-written uniqueness test; that the code applies the same test
+rests on tie C — streams with a second optical path, a repeated per-frame position, several focal planes.  That the
+derived TILED_FULL table of an image with several focal planes fails it is `several_focal_planes_refused`.) -/
 theorem duplicate_positions_refused {α} (z : α) (lut : List LutRow) (frames : List (Img α)) (R C th tw : Int) (chan : Option Int)
     (rs re cs ce : Option Int) (ai full am : Bool) (h : uniqueKey chan lut = false) :
     readRegion z lut frames R C th tw chan rs re cs ce ai full am = .error .runtime := by
   unfold readRegion
   rw [h]
   rfl
+
+/-- **Several focal planes.**  The table derived for a TILED_FULL image with two or more focal planes holds every tile
+position once per plane; a region read without a channel query (`Image.get_total_pixel_matrix`) therefore fails the
+uniqueness test with RuntimeError instead of picking a plane. -/
+theorem several_focal_planes_refused {α} (z : α) (frames : List (Img α)) (ch : Option Int) (planes tr tc R C : Int) (hp : 2 ≤ planes)
+    (hr : 1 ≤ tr) (hc : 1 ≤ tc) (hR : 1 ≤ R) (hC : 1 ≤ C) (rs re cs ce : Option Int) (ai full am : Bool) :
+    ∃ lut, tiledFullLut [ch] planes tr tc R C = .ok lut ∧
+      readRegion z lut frames R C tr tc none rs re cs ce ai full am = .error .runtime := by
+  obtain ⟨lut, hl, hu⟩ := tiledFullLut_planes_not_unique ch planes tr tc R C hp hr hc hR hC
+  exact ⟨lut, hl, duplicate_positions_refused z lut frames R C tr tc none rs re cs ce ai full am hu⟩
 
 /-! ## Positions implied by frame order (TILED_FULL) -/
 
@@ -198,7 +210,7 @@ theorem region_assembly_tiled_full {α} (z : α) (M : Img α) (frames : List (Im
       ∃ fr, frames[k]? = some fr ∧ FrameCutFrom M R C th tw p.1 p.2 fr)
     (rs re cs ce : Option Int) (ai am : Bool) (r0 r1 c0 c1 : Int)
     (hstd : stdRowColIndices rs re cs ce R C ai false = .ok (r0, r1, c0, c1)) (hr : r0 ≤ r1) (hc : c0 ≤ c1) :
-    ∃ lut out, tiledFullLut [some ch] th tw R C = .ok lut ∧
+    ∃ lut out, tiledFullLut [some ch] 1 th tw R C = .ok lut ∧
       readRegion z lut frames R C th tw none rs re cs ce ai true am = .ok (r1 - r0, c1 - c0, out) ∧
       ∀ i j, 0 ≤ i → i < r1 - r0 → 0 ≤ j → j < c1 - c0 → out i j = M (r0 - 1 + i) (c0 - 1 + j) :=
   readRegion_tiled_full z M frames ch R C th tw ht hw hR hC hframes rs re cs ce ai am r0 r1 c0 c1 hstd hr hc
@@ -221,8 +233,10 @@ theorem sparse_zero_fill {α} (z : α) (M : Img α) (lut : List LutRow) (frames 
   readRegion_sparse_zero_fill z M lut frames R C th tw ht hw hnd hcut hzero rs re cs ce ai full r0 r1 c0 c1 hstd hr hc
 
 /-- With tiles missing and *without* `allow_missing_combinations` (what `Image.get_total_pixel_matrix` passes) a
-TILED_SPARSE read whose selection does not have the expected number of frames is refused, never silently
-zero-filled. -/
+TILED_SPARSE read whose selection does not have the expected number of frames is refused.  (The hypothesis is the
+model's own count comparison; that a count mismatch is exactly "a selected grid tile is missing" is
+`sparse_read_iff_no_selected_tile_missing`, for tables ON THE GRID only: a tile at an off-grid position can make the
+counts agree while part of the region is covered by no tile — model and code then both zero-fill.) -/
 theorem missing_tiles_refused {α} (z : α) (lut : List LutRow) (frames : List (Img α)) (R C th tw : Int) (chan : Option Int)
     (rs re cs ce : Option Int) (ai : Bool) (r0 r1 c0 c1 : Int)
     (hstd : stdRowColIndices rs re cs ce R C ai false = .ok (r0, r1, c0, c1))
@@ -321,7 +335,9 @@ theorem tile_then_read_full {α} [BEq α] [LawfulBEq α] (z : α) (Ms : List (In
 `omit_empty_frames` in one place (`np.around(mask · MaximumFractionalValue) != 0`, translated as `Gen.fractionOccupied`) and
 computes the stored value in another (`_get_segment_pixel_array`, `Gen.fractionStored`); for every fraction `v` and every
 MaximumFractionalValue the two agree: a pixel counts as empty iff the value stored for it is 0.  (The model's emptiness test
-`keepMask` works on the stored values; this theorem is what licenses that for float input.) -/
+`keepMask` works on the stored values; this theorem is what licenses that for float input.  It is a TRIPWIRE: both
+expressions translate to the same term today, over exact rationals — float rounding of the product near a tie is C01's
+topic — and the statement stops holding as soon as one of the two places is changed without the other.) -/
 theorem omitted_tile_stores_zero (v : Rat) (m : Int) :
     ∃ b s, fractionOccupied v m = .ok b ∧ fractionStored v m = .ok s ∧ (b = false ↔ s = 0) :=
   occupied_iff_stored_ne_zero v m
